@@ -29,8 +29,8 @@ COMPONENTS = {
 SIM_CHECKS = {
     'C13': {
         'profiles': [('clock-keep', 'plain')],
-        'runs': {'quick': 200000, 'thorough': 20000000},
-        'batch': {'quick': 2500, 'thorough': 50000},
+        'runs': {'quick': 2000000, 'thorough': 150000000},
+        'batch': {'quick': 10000, 'thorough': 250000},
         'cells': 'c13',
         'rule': ('Each evaluation is one seeded run of the real SystemClockLoop (no reference clock) under a simulated '
                  'millis() counter: a generated schedule of SET / GET / LOOP / ADV / SETUP / REBOOT ops (5-400 ops), '
@@ -49,8 +49,8 @@ SIM_CHECKS = {
     },
     'C14': {
         'profiles': [('clock-sync', 'plain')],
-        'runs': {'quick': 120000, 'thorough': 10000000},
-        'batch': {'quick': 1500, 'thorough': 25000},
+        'runs': {'quick': 3000000, 'thorough': 150000000},
+        'batch': {'quick': 15000, 'thorough': 250000},
         'cells': 'c14',
         'rule': ('Each evaluation is one seeded run of the real SystemClockLoop with a scripted reference clock '
                  '(per-request fault plan: valid / invalid / lost / late / jump / same-value / instant / stale / '
@@ -71,8 +71,8 @@ SIM_CHECKS = {
     },
     'C08': {
         'profiles': [('tz-history', 'plain')],
-        'runs': {'quick': 300000, 'thorough': 20000000},
-        'batch': {'quick': 2500, 'thorough': 40000},
+        'runs': {'quick': 1000000, 'thorough': 60000000},
+        'batch': {'quick': 5000, 'thorough': 100000},
         'cells': 'c08',
         'bitmap': True,
         'needs_history_rule': True,
@@ -103,8 +103,8 @@ SIM_CHECKS = {
     },
     'C09': {
         'profiles': [('device', 'san')],
-        'runs': {'quick': 60000, 'thorough': 4000000},
-        'batch': {'quick': 500, 'thorough': 5000},
+        'runs': {'quick': 500000, 'thorough': 20000000},
+        'batch': {'quick': 2500, 'thorough': 40000},
         'cells': 'c09',
         'ub': True,
         'rule': ('Each evaluation is one seeded run of the whole simulated device in the ASan+UBSan build: tz clients of every '
@@ -129,8 +129,8 @@ SIM_CHECKS = {
     },
     'C16': {
         'profiles': [('tz-restore', 'plain')],
-        'runs': {'quick': 200000, 'thorough': 10000000},
-        'batch': {'quick': 2500, 'thorough': 40000},
+        'runs': {'quick': 1500000, 'thorough': 50000000},
+        'batch': {'quick': 7500, 'thorough': 100000},
         'cells': 'c16',
         'crash_note_ops': ('Q', 'QR', 'QN'),
         'rule': ('Each evaluation is one seeded run of the device with its durable store: clients of all five kinds plus '
@@ -255,7 +255,7 @@ def run_sim_check(prop, tier, verif_seed, spec=None, runs_override=None):
         while pos < want and exit_code == 0:
             res = K.run_batches(binary, profile, verif_seed, want - pos, batch, first_run=pos,
                                 use_bitmap=spec.get('bitmap', False),
-                                batch_timeout=spec.get('batch_timeout', 900),
+                                batch_timeout=spec.get('batch_timeout', 1800),
                                 crash_note_ops=spec.get('crash_note_ops', ()))
             total['runs'] += res.runs
             total['nontrivial'] += res.nontrivial
